@@ -147,6 +147,10 @@ def run(cx):
     packet_ack_exact(cx, "C20.i")
     from props.shared import ctor_initial_state
     ctor_initial_state(cx, "C20.j")
+    # "zero once everything has been acknowledged": lost Unreliable packets are only ever released by the resync the
+    # sender requests once nothing is left to resend, whether or not more packets wait behind a full window
+    from props.C02 import inst_resync_guard
+    inst_resync_guard(cx, "C20.l")
     from props.C01 import inst_id_arith
     inst_id_arith(cx, "C20.k")
     with cx.instance("C20.c", "T7 SHAPE", "send_buffer_size forwards PacketSender.total_size under Active and returns 0 otherwise", floor=4) as inst:
